@@ -206,6 +206,38 @@ pub fn run(ctx: &Ctx) {
         check_kb,
     );
 
+    ctx.exhaustive(
+        "special_round_key_at_every_position",
+        "keys obtained by inverting the key schedule so that round key rk[i] is a special word (0, 1, 2^31, 2^32-1, 0x01010101, 0x80808080), for every i in 0..32, the three neighbouring round keys pseudo-random; 2 blocks each",
+        || {
+            let mut v = Vec::new();
+            for i in 0..32usize {
+                for (j, w) in [0u32, 1, 0x8000_0000, 0xFFFF_FFFF, 0x0101_0101, 0x8080_8080].iter().enumerate() {
+                    let pos = i.min(28);
+                    let fill = expand_bytes((i * 8 + j) as u64 ^ 0x5c02, 16);
+                    let mut win = [0u32; 4];
+                    for t in 0..4 {
+                        win[t] = u32::from_be_bytes([fill[4 * t], fill[4 * t + 1], fill[4 * t + 2], fill[4 * t + 3]]);
+                    }
+                    win[i - pos] = *w;
+                    let key = rsm4::Sm4::key_from_round_key_window(pos, win);
+                    debug_assert_eq!(rsm4::Sm4::new(&key).rk[i], *w);
+                    for b in 0..2u64 {
+                        v.push(KB { key: Hex(key.to_vec()), block: Hex(expand_bytes((i * 16 + j * 2) as u64 + b, 16)) });
+                    }
+                }
+            }
+            v
+        },
+        |c| {
+            let rk = rsm4::Sm4::new(&arr16(&c.key)).rk;
+            if !rk.iter().any(|w| matches!(*w, 0 | 1 | 0x8000_0000 | 0xFFFF_FFFF | 0x0101_0101 | 0x8080_8080)) {
+                return pass(false, "crafting-failed");
+            }
+            check_kb(c)
+        },
+    );
+
     ctx.generated(
         "generated_key_block",
         "proptest (key, block) from uniform / repeated-byte / single-bit / single-zero-bit",
